@@ -344,10 +344,12 @@ Proof.
 Qed.
 
 (* ---- the record [word] and the uint64 the code uses --------------------------------------- *)
-Lemma count_mask_generated : udpMuxWriteCountMask = udpMuxWriteCountMask_local.
-Proof. reflexivity. Qed.
-
 Local Open Scope Z_scope.
+(* the generated constants are the bits the record stands for *)
+Lemma masks_generated :
+  udpMuxWriteBlockedBit = 2 ^ 63 /\ udpMuxWriteDeadlineBit = 2 ^ 62 /\ udpMuxWriteCountMask = 2 ^ 62 - 1.
+Proof. repeat split; reflexivity. Qed.
+
 Definition word_ok (w : word) : Prop := Z.of_nat (cnt w) < 2 ^ 62 - 1.
 
 Ltac Zify.zify_post_hook ::= Z.div_mod_to_equations.
@@ -373,7 +375,8 @@ Lemma encode_fields w : word_ok w ->
 Proof.
   unfold word_ok, encode, udpMuxWriteBlockedBit, udpMuxWriteDeadlineBit, udpMuxWriteCountMask.
   intros H. pose proof (Nat2Z.is_nonneg (cnt w)) as Hn. set (c := Z.of_nat (cnt w)) in *.
-  replace 4611686018427387903 with (Z.ones 62) by reflexivity.
+  change 4611686018427387903 with (Z.ones 62).
+  change 9223372036854775808 with (2 ^ 63). change 4611686018427387904 with (2 ^ 62).
   rewrite Z.land_ones, !land_pow2 by lia.
   change (2 ^ 62) with 4611686018427387904 in *. change (2 ^ 63) with 9223372036854775808 in *.
   destruct (blk w), (dl w); repeat split; intros; try lia; try discriminate.
